@@ -218,7 +218,8 @@ Lemma doseid_core_ext s1 s2 rows : has_evid s1 = has_evid s2 -> has_ss s1 = has_
   doseid_core s1 rows = doseid_core s2 rows.
 Proof.
   intros He Hs. unfold doseid_core, ann, resetgroups. rewrite He. apply fold_left_ext.
-  intros vals k. unfold doseid_step. apply map_ext. intros rv. rewrite (dec_of_ext s1 s2 _ _ _ Hs). reflexivity.
+  intros vals k. unfold doseid_step. apply map_ext. intros rv. unfold stepv.
+  rewrite (dec_of_ext s1 s2 _ _ _ Hs). reflexivity.
 Qed.
 
 Lemma relabel_snd {B} (X : list (row * B)) : map snd (relabel X) = map snd X.
@@ -236,20 +237,17 @@ Proof.
   intros Ha Gd Gt. assert (R := doseid_refines_lemma d Gd).
   unfold guard_doseid in Gd.
   apply andb_prop in Gd. destruct Gd as [Gd _]. apply andb_prop in Gd. destruct Gd as [Gd _].
-  apply andb_prop in Gd. destruct Gd as [Gd _]. apply andb_prop in Gd. destruct Gd as [Gd _].
-  apply andb_prop in Gd. destruct Gd as [Gd Glab]. apply andb_prop in Gd. destruct Gd as [Gd _].
-  apply andb_prop in Gd. destruct Gd as [Gdose Gid].
+  apply andb_prop in Gd. destruct Gd as [Gd _]. apply andb_prop in Gd. destruct Gd as [Gd Glab].
+  apply andb_prop in Gd. destruct Gd as [Gdose _].
   set (s := ds_sch d) in *. set (rows := ds_rows d) in *.
   set (fr := map (fun r => (r, false)) rows).
   assert (Efr : tad_frame d = Ok fr) by (unfold tad_frame; fold s; rewrite Ha; reflexivity).
   assert (Emf : map fst fr = rows) by (unfold fr; rewrite map_map; apply map_id).
-  assert (Eid : has_evid s && negb (id_named_ID s) = false).
-  { unfold g_id_named in Gid. destruct (has_evid s); cbn in *; [rewrite Gid|]; reflexivity. }
   assert (Edid : doseid_impl (with_rows d (map fst fr) true) = Ok (map (wf s rows) rows)).
   { rewrite Emf. unfold doseid_impl, with_rows. cbn [ds_sch ds_rows has_dose has_evid id_named_ID]. fold s.
-    rewrite Gdose, Eid. cbn [negb]. f_equal.
+    rewrite Gdose. cbn [negb]. f_equal.
     rewrite (doseid_core_ext _ s rows) by reflexivity.
-    unfold doseid_impl in R. fold s rows in R. rewrite Gdose, Eid in R. cbn [negb] in R.
+    unfold doseid_impl in R. fold s rows in R. rewrite Gdose in R. cbn [negb] in R.
     injection R as R. rewrite R. unfold doseid_walk. fold s rows. apply (walk_closed s rows Glab). }
   unfold guard_tad_frame in Gt. rewrite Efr, Edid in Gt. apply andb_prop in Gt. destruct Gt as [Gids Gsort].
   set (dids := map (wf s rows) rows) in *.
